@@ -117,7 +117,8 @@ pub fn get_compression_at_offset(spec: &ESpec, offset: u64) -> &ESpec {
                 if let Some(size_spec) = &chunk.size_spec {
                     let size = size_spec.size;
                     let count = size_spec.count.unwrap_or(1) as u64;
-                    let chunk_end = current_offset + size * count;
+                    // size and count come from the ESpec string
+                    let chunk_end = current_offset.saturating_add(size.saturating_mul(count));
 
                     if offset >= current_offset && offset < chunk_end {
                         return &chunk.spec;
